@@ -298,13 +298,18 @@ CLAIMS: dict[str, tuple[str, str, str, str]] = {
         "every maxNesting >= 0: prefixing every line with '> ' ('>' for an empty line) parses, with maxNesting+1, to exactly "
         "one block quote over all lines whose content is the token stream of D one level deeper with the same maps "
         "(unbounded: by the simulation of C06b — bsCount-independence on tab-free line tables, level/maxNesting shift — "
-        "over all rules, the loop and nested runs; Props/C07b-c for the list rule). Also lemma A quote_strip and lemma D nested_loop_frame. MISSING: the "
-        "list law, rules outside the sub-parser, tabs, the same-maxNesting form: decided by the oracle, which applies both "
+        "over all rules, the loop and nested runs; Props/C07b-c for the list rule). C06h.list_law (the list-indent half, by a third "
+        "simulation with a column shift, Props/C06e-g): for every tab-free D without '>' whose first line starts with a non-blank, every "
+        "marker (* - +, 1-9 digits and ) or .), 1-4 spaces: unless the combined first line is a thematic break, marker + spaces before "
+        "the first line and as many spaces before every other line parse, with maxNesting+2, to one list with one item over all "
+        "lines whose content is the stream of D two levels deeper, up to the hidden flag ('>' excluded: the lazy-continuation "
+        "exception the property names, shown real by a decided example). Also lemma A quote_strip and lemma D nested_loop_frame. MISSING: the "
+        "list law with block quotes inside D or unindented blank lines, rules outside the sub-parser, tabs, the same-maxNesting form: decided by the oracle, which applies both "
         "laws to the implementation on generated documents, repeatedly to depth 6, all marker shapes. Known finding K-C06-1 "
         "(HTML blocks with a blank line are cut inside list items). Tie: per-line records of the live block-quote rule vs "
         "quoteOffsets; modelled sub-parsers vs the real parser on generated and quoted documents.",
         NOTE,
-        "Lean 4 proof (quote law of the modelled sub-parser by simulation; marker-stripping lemma) + differential tie + container-law oracle",
+        "Lean 4 proof (quote law and list-indent law of the modelled sub-parser by simulation; marker-stripping lemma) + differential tie + container-law oracle",
         "§6 C06",
     ),
     "C07": (
